@@ -8,9 +8,9 @@ package main
 // For small-integer inputs (Go's float predicates are exact there) the executable Lean model of the
 // algorithm must return exactly the same triangle SET (model lines c20.bw).
 //
-// The FIRST argument of every request is a class token: the generator name, except that every
-// point set whose height (maxY-minY) lies in the band (0.1, 2/18.5] is labelled `smallheight`
-// (there the "just a guess" super-triangle does not contain all points, see notes/C20.md).
+// The FIRST argument of every request is a class token: the generator name.  `smallheight`
+// (height in (0.1, 2/18.5)) and `scaleddown` are the classes on which the super-triangle of the
+// tree before /repo commit 731df05 did not contain all points (see notes/C20.md).
 
 import (
 	"fmt"
@@ -123,12 +123,12 @@ func c20Bucket(n int) string {
 // oracle lines for one point set
 func (c *Ctx) c20Oracle(gen string, p c20pts) {
 	cls := gen
-	if h := c20Height(p); h > 0.1 && h <= 2/18.5+1e-9 {
-		cls = "smallheight"
+	if h := c20Height(p); h <= 2/18.5 {
+		c.Note("height<=2/18.5")
 	}
 	tris, pos, pan := c20Run(p)
 	if pan {
-		c.Emit("c20.holds.indices", cls+" 0 0", "panic")
+		c.Emit("c20.holds.indices", cls+" "+c20PtsStr(p)+" 0", "panic")
 		return
 	}
 	c.Note("class." + cls)
@@ -300,7 +300,7 @@ func runC20(c *Ctx) {
 			s := []float64{1e3, 1e6}[c.Rng.Intn(2)]
 			c.c20Oracle("scaledup", c20Map(c.c20Uniform(n, 10, 10), s, 0, 0))
 		case 5:
-			s := []float64{1e-3, 1e-2}[c.Rng.Intn(2)]
+			s := []float64{1e-3, 1e-2, 1e-1}[c.Rng.Intn(3)]
 			c.c20Oracle("scaleddown", c20Map(c.c20Uniform(n, 10, 10), s, 0, 0))
 		case 6:
 			o := []float64{1e3, -1e3, 1e6, -1e6}[c.Rng.Intn(4)]
